@@ -364,7 +364,7 @@ pub fn gen_thread(seed: u64, small: bool) -> ThreadScenario {
         client,
         server,
         streams,
-        pings: if small { rng.range(0, 2) as u32 } else { *rng.pick(&[0u32, 1, 3, 20, 200, 600]) },
+        pings: if small { rng.range(0, 2) as u32 } else { *rng.pick(&[0u32, 1, 3, 20, 200, 600, 3000, 3000]) },
         late_handle_drop: rng.chance(1, 2),
         chaos_threads: if small { rng.range(0, 1) as u32 } else { rng.range(0, 3) as u32 },
         max_chunk: [*rng.pick(&[0usize, 0, 1, 7, 100, 5_000]), *rng.pick(&[0usize, 0, 1, 7, 100, 5_000])],
@@ -650,6 +650,15 @@ fn server_stream_thread(spec: Option<TStream>, req: Request<RecvStream>, mut res
     o
 }
 
+/// Drop a handle on the scenario thread; h2's drop code may panic (test-only assertions of the `unstable`
+/// feature after a connection error, or a genuine defect): record it like a panic in any other thread.
+fn drop_caught<T>(x: T, sh: &Shared) {
+    if let Err(p) = std::panic::catch_unwind(std::panic::AssertUnwindSafe(move || drop(x))) {
+        let msg = if let Some(s) = p.downcast_ref::<&str>() { s.to_string() } else if let Some(s) = p.downcast_ref::<String>() { s.clone() } else { "?".into() };
+        sh.panics.lock().unwrap().push(format!("scenario thread, dropping a handle: {}", msg));
+    }
+}
+
 fn catch<T: Send + 'static>(name: String, sh: Arc<Shared>, f: impl FnOnce() -> T + Send + 'static) -> std::thread::JoinHandle<Option<T>> {
     std::thread::Builder::new()
         .name(name.clone())
@@ -824,7 +833,7 @@ pub fn run_threads(sc: &ThreadScenario, watchdog_secs: u64, on_deadlock: OnDeadl
         }));
     }
     let mut late_sr = if sc.late_handle_drop { Some(sr.clone()) } else { None };
-    drop(sr);
+    drop_caught(sr, &sh);
     let ping_h = if sc.pings > 0 {
         let pp = ping_pong.take();
         let (sh2, n, seed) = (sh.clone(), sc.pings, sc.seed);
@@ -833,6 +842,9 @@ pub fn run_threads(sc: &ThreadScenario, watchdog_secs: u64, on_deadlock: OnDeadl
                 let mut rng = Rng::new(seed ^ 0x9199);
                 let mut ok = 0u32;
                 let mut errs = Vec::new();
+                // The first poll_pong of each ping is aimed at the instant the PONG arrives (adaptive estimate of
+                // the round trip): that is where a check-then-register race in the waiter would lose its wake-up.
+                let mut est_ns: f64 = 20_000.0;
                 for _ in 0..n {
                     noise(&mut rng, &sh2);
                     match pp.send_ping(h2::Ping::opaque()) {
@@ -841,7 +853,25 @@ pub fn run_threads(sc: &ThreadScenario, watchdog_secs: u64, on_deadlock: OnDeadl
                             if pp.send_ping(h2::Ping::opaque()).is_ok() {
                                 errs.push("second send_ping accepted while one was pending".to_string());
                             }
-                            match block_on(poll_fn(|cx| pp.poll_pong(cx)), &sh2) {
+                            if !cfg!(miri) {
+                                let d = Duration::from_nanos((est_ns * (0.5 + rng.below(1000) as f64 / 1000.0)) as u64);
+                                let t0 = Instant::now();
+                                while t0.elapsed() < d {
+                                    std::hint::spin_loop();
+                                }
+                            }
+                            let mut polls = 0u32;
+                            // (the first poll below is the aimed one, made with the waker the thread really sleeps on)
+                            let r = block_on(
+                                poll_fn(|cx| {
+                                    polls += 1;
+                                    pp.poll_pong(cx)
+                                }),
+                                &sh2,
+                            );
+                            // steer the estimate towards the arrival time: ready at once = we came late
+                            est_ns = if polls <= 1 { (est_ns * 0.93).max(500.0) } else { (est_ns * 1.07).min(5_000_000.0) };
+                            match r {
                                 Some(Ok(_)) => ok += 1,
                                 Some(Err(e)) => {
                                     errs.push(format!("pong: {}", e));
@@ -869,7 +899,9 @@ pub fn run_threads(sc: &ThreadScenario, watchdog_secs: u64, on_deadlock: OnDeadl
         if late_sr.is_some() && stream_hs.iter().all(|h| h.is_finished()) {
             // every stream is done: the last request handle goes away on this thread, concurrently with the
             // connection thread's polling
-            late_sr = None;
+            if let Some(x) = late_sr.take() {
+                drop_caught(x, &sh);
+            }
         }
         if client_h.is_finished() && server_h.is_finished() && stream_hs.iter().all(|h| h.is_finished()) {
             break;
@@ -881,6 +913,9 @@ pub fn run_threads(sc: &ThreadScenario, watchdog_secs: u64, on_deadlock: OnDeadl
         std::thread::sleep(Duration::from_millis(if cfg!(miri) { 1 } else { 2 }));
     }
     sh.done.store(true, Ordering::Relaxed);
+    if let Some(x) = late_sr.take() {
+        drop_caught(x, &sh);
+    }
     if let Some((why, dump, blocked)) = sh.watchdog_note.lock().unwrap().take() {
         notes.push(format!("{}; stack dump:\n{}", why, dump));
         // Nobody is waiting for a lock, nothing is in flight in the transport, and yet threads sit in their
